@@ -7,7 +7,7 @@ CLAIM = {
           'requested sets, widths, decimals and rational values: same_channels (curve section = ~A heading = every data '
           'row = channel 0 + requested-and-present, same_channels_separate for the writers called one by one, specSel_mem_iff), fields_separated / heading_fields_separated (a row '
           'tokenises on blanks into exactly its value texts whatever the width), print_error (|printed - v| <= 1/2 10^-d, '
-          'round-half-even) and print_int_exact, rows_count, data_row_tokens, reduce_mem; composition with the reader model of C09: roundtrip_row_tokens, roundtrip_value, roundtrip_int, and the FILE-LEVEL round trip roundtrip_file (C09.parse of header + the whole written text = the listed channels, names/units in order, one frame per source frame, every cell the decimal cellDec of the reduced value; cellDec_spec: within 1/2 10^-d, exact for integer first/min/max; cells_wf). The model is tied to the source '
+          'round-half-even) and print_int_exact, rows_count, data_row_tokens, reduce_mem; composition with the reader model of C09: roundtrip_row_tokens, roundtrip_value, roundtrip_int, and the FILE-LEVEL round trip roundtrip_file (C09.parse of header + the whole written text = the listed channels, names/units in order, one frame per source frame, every cell the decimal cellDec of the reduced value; cellDec_spec: within 1/2 10^-d, exact for integer first/min/max; cells_wf); writer_history_independent. The model is tied to the source '
           'on every run by a correspondence (channel lists, heading line, every data row, tokenising, reductions, the '
           'float/int formatting primitive) and the property is evaluated end to end on the implementation '
           '(write_curve_and_array_section_to_las -> LASRead) with exact Fraction arithmetic. Proof is the right level for '
@@ -207,7 +207,8 @@ def gen_case(rng):
                 sub.append(rng.choice(var))
         kind += '+variants'
     mode = rng.choice(['combined', 'combined', 'separate', 'curve+array'])
-    return {'chans': chans, 'n_frames': nfr, 'red': red, 'subset': sub, 'kind': kind, 'width': width, 'dec': d, 'mode': mode}
+    ro = rng.random() < 0.3
+    return {'readonly': ro, 'chans': chans, 'n_frames': nfr, 'red': red, 'subset': sub, 'kind': kind, 'width': width, 'dec': d, 'mode': mode}
 
 
 # ----------------------------------------------------------------------------- implementation side
@@ -262,9 +263,40 @@ def build(case):
         for f, fr in enumerate(ch['values']):
             vals = [float.fromhex(v) for v in fr] if isf else fr
             fch.array[f] = np.array(vals, dtype=np.dtype(ch['dtype'])).reshape(tuple(ch['shape']))
+    if case.get('readonly'):
+        for fch in fa.channels:
+            fch.array.flags.writeable = False       # a writer that only reads its input is not disturbed by this
     if _KEEP is not None:
         _KEEP.append(fa)
     return fa
+
+
+class InputModified(Exception):
+    """the writer changed the caller's frame array"""
+
+
+def snapshot(fa):
+    import numpy as np
+    out = []
+    for ch in fa.channels:
+        a = ch.array
+        out.append((str(a.dtype), a.shape, np.ma.getdata(a).tobytes(),
+                    np.ma.getmaskarray(a).tobytes() if isinstance(a, np.ma.MaskedArray) else None, type(a).__name__))
+    return out
+
+
+def check_unchanged(fa, snap, what):
+    import numpy as np
+    for c, (ch, before) in enumerate(zip(fa.channels, snap)):
+        now = snapshot_one = (str(ch.array.dtype), ch.array.shape, np.ma.getdata(ch.array).tobytes(),
+                              np.ma.getmaskarray(ch.array).tobytes() if isinstance(ch.array, np.ma.MaskedArray) else None,
+                              type(ch.array).__name__)
+        if now != before:
+            if now[2] != before[2]:
+                a = np.frombuffer(before[2], dtype=before[0]).reshape(before[1]); b = np.ma.getdata(ch.array)
+                f = next(i for i in range(len(a)) if a[i].tobytes() != b[i].tobytes())
+                raise InputModified(f'{what} changed the values of channel {c} ({ch.ident!r}): frame {f} was {a[f].tolist()}, is now {b[f].tolist()}')
+            raise InputModified(f'{what} changed channel {c} ({ch.ident!r}): {before[:2] + before[3:]} -> {now[:2] + now[3:]}')
 
 
 def _write_on(fa, case):
@@ -297,12 +329,17 @@ def write(case):
     checked when they are the last step of their own case - and the text returned is that of the final write on object 0:
     what a write produces must not depend on what was written before."""
     fa = build(case)
+    snap = snapshot(fa)
     other = None
     for h in case.get('history', []):
         if h.get('obj', 0) == 1 and other is None:
             other = build(case)
-        _write_on(other if h.get('obj', 0) == 1 else fa, dict(case, **h))
-    return fa, _write_on(fa, case)
+        o = other if h.get('obj', 0) == 1 else fa
+        _write_on(o, dict(case, **h))
+        check_unchanged(o, snap, f"an earlier write with reduction {h['red']!r} subset {h['subset']!r}")
+    text = _write_on(fa, case)
+    check_unchanged(fa, snap, f"the write with reduction {case['red']!r}")     # the writer is read-only on its input
+    return fa, text
 
 
 def parse_text(text):
@@ -414,8 +451,12 @@ def evaluate(ctx, case, want_corr=False):
     W, D, red = case['width'], case['dec'], case['red']
     try:
         fa, text = write(case)
+    except InputModified as e:
+        ctx.fail(case, f'the writer modified the frame array it was given: {e}'); return None
     except Exception as e:                                      # noqa
-        ctx.fail(case, f'writer raised {type(e).__name__}: {e}'); return None
+        ctx.fail(case, f'writer raised {type(e).__name__}: {e}' + (' (read-only input arrays)' if case.get('readonly') else '')); return None
+    # every expectation below is computed from the ORIGINAL values: a frame array built afresh from the case, never written
+    fa = build(dict(case, readonly=False))
     exp = expected_channels(case)
     names = [ch['ident'] for ch in case['chans']]
     curve, head, head_line, rows = parse_text(text)
@@ -750,6 +791,47 @@ def correspond_file(ctx, cases, results, limit):
         ctx.corr('file_readback_model', small, c09.impl_parse(LR, t)[0], ms)
 
 
+def readonly_input_cases(ctx, count):
+    """The writer must not change (nor need to change) its input: multi-valued channels with NaN / inf / -0.0 values, masked
+    arrays (as LASRead produces them) and read-only arrays, every reduction; only 'no exception, input unchanged' is checked
+    here (NaN and masked cells have no meaningful read-back)."""
+    import numpy as np
+    rng = ctx.rng
+    for _ in range(count):
+        case = gen_case(rng)
+        case['readonly'] = rng.random() < 0.5
+        fa = build(dict(case, readonly=False))
+        kind = rng.choice(['nan', 'masked', 'plain'])
+        for fch in fa.channels[1:]:
+            if fch.array.dtype.kind == 'f' and kind == 'nan':
+                flat = fch.array.reshape(-1)
+                for i in rng.sample(range(flat.size), max(1, flat.size // 4)):
+                    flat[i] = rng.choice([np.nan, np.inf, -np.inf, -0.0])
+            if kind == 'masked':
+                m = np.zeros(fch.array.shape, dtype=bool)
+                mf = m.reshape(-1)
+                for i in rng.sample(range(mf.size), mf.size // 3):
+                    mf[i] = True
+                fch.array = np.ma.MaskedArray(fch.array, mask=m)
+        if case['readonly']:
+            for fch in fa.channels:
+                np.ma.getdata(fch.array).flags.writeable = False
+                fch.array.flags.writeable = False
+        snap = snapshot(fa)
+        small = {k: case[k] for k in ('red', 'subset', 'width', 'dec', 'mode', 'n_frames', 'readonly')}
+        small.update(kind=kind, dtypes=[c['dtype'] for c in case['chans']], shapes=[c['shape'] for c in case['chans']])
+        ctx.count('oracle_cases'); ctx.count('input_unchanged_' + kind + ('_readonly' if case['readonly'] else ''))
+        for red in [case['red']] + [r for r in REDUCTIONS if r != case['red']]:
+            try:
+                _write_on(fa, dict(case, red=red))
+                check_unchanged(fa, snap, f'the write with reduction {red!r}')
+            except InputModified as e:
+                ctx.fail(dict(case, red=red, special=kind), f'the writer modified the frame array it was given: {e}'); break
+            except Exception as e:                                  # noqa
+                ctx.fail(dict(case, red=red, special=kind), f'writer raised {type(e).__name__}: {e} on {kind} input'
+                         + (' (read-only arrays)' if case['readonly'] else '')); break
+
+
 def run(ctx):
     rng = ctx.rng
     total, chunk = ctx.n(12000, 200000), 4000
@@ -775,6 +857,7 @@ def run(ctx):
         res = evaluate(ctx, case)
         if res is not None and case.get('non_ascii'):
             ctx.count('non_ascii_file_roundtrips')
+    readonly_input_cases(ctx, ctx.n(300, 3000))
     known_name_cases(ctx)
     if have_model:
         probe_format(ctx)
